@@ -193,7 +193,17 @@ fn fake_change(actor: u8, version: u64, k: usize, a: usize, b: usize) -> ChangeV
 
 pub async fn one_execution(seed: u64, stats: &mut BTreeMap<String, u64>) -> Result<(Vec<(String, Value)>, String, bool), String> {
     let mut rng = rand::rngs::StdRng::seed_from_u64(seed);
-    let mut node = new_node(0, NodeOpts::default()).await.map_err(|e| e.to_string())?;
+    // a third of the executions run with a tiny apply-trigger channel (a legal perf setting):
+    // whoever announces a completed version must never wait for a slot while holding the
+    // write connection, because the consumer of that channel needs the connection itself
+    let small_apply = rng.random_range(0..3) == 0;
+    let apply_len = *crate::common::pick(&mut rng, &[1usize, 2]);
+    let mut opts = NodeOpts::default();
+    if small_apply {
+        opts.perf = Some(Box::new(move |p| p.apply_channel_len = apply_len));
+        *stats.entry("executions_with_tiny_apply_channel".into()).or_insert(0) += 1;
+    }
+    let mut node = new_node(0, opts).await.map_err(|e| e.to_string())?;
     let _ = verif::take_log();
     verif::set_record(true);
     verif::set_seed(seed);
@@ -297,7 +307,24 @@ pub async fn one_execution(seed: u64, stats: &mut BTreeMap<String, u64>) -> Resu
             format!("pmc{actor}"),
             tokio::spawn(async move {
                 let mut rng = rand::rngs::StdRng::seed_from_u64(rs);
-                for v in 1..=rng.random_range(3..8u64) {
+                let n_versions = rng.random_range(3..8u64);
+                let mut first_single = 1u64;
+                if rng.random_range(0..2) == 0 {
+                    // several versions completed by ONE ingest call: their first halves in one
+                    // batch, the second halves in another
+                    let k = 6usize;
+                    let g = rng.random_range(2..=n_versions.min(4));
+                    for half in [(3usize, 5usize), (0, 2)] {
+                        let batch: Vec<_> = (1..=g).map(|v| (fake_change(actor, v, k, half.0, half.1), ChangeSource::Sync, Instant::now())).collect();
+                        klukai_agent::agent::process_multiple_changes(agent.clone(), bookie.clone(), batch, Duration::from_secs(60))
+                            .await
+                            .map_err(|e| e.to_string())?;
+                        progress.fetch_add(1, Ordering::SeqCst);
+                    }
+                    tv.fetch_add(g, Ordering::SeqCst);
+                    first_single = g + 1;
+                }
+                for v in first_single..=n_versions {
                     let k = 6usize;
                     let batch: Vec<ChangeV1> = if rng.random_range(0..2) == 0 {
                         vec![fake_change(actor, v, k, 0, k - 1)]
@@ -326,7 +353,9 @@ pub async fn one_execution(seed: u64, stats: &mut BTreeMap<String, u64>) -> Resu
             tokio::spawn(async move {
                 while !stop.load(Ordering::SeqCst) {
                     let _ = generate_sync(&bookie, agent.actor_id()).await;
-                    progress.fetch_add(1, Ordering::SeqCst);
+                    // readers are not counted as progress: they keep going while every
+                    // writer is wedged
+                    let _ = &progress;
                     tokio::time::sleep(Duration::from_micros(300)).await;
                 }
                 Ok(())
@@ -368,11 +397,14 @@ pub async fn one_execution(seed: u64, stats: &mut BTreeMap<String, u64>) -> Resu
                 }
                 let r = tokio::time::timeout(Duration::from_secs(120), process_fully_buffered_changes(&node.agent, &node.bookie, actor, version, Duration::from_secs(60))).await;
                 match r {
-                    Ok(Ok(_)) => *stats.entry("agent.buffered_applies".into()).or_insert(0) += 1,
+                    Ok(Ok(_)) => {
+                        *stats.entry("agent.buffered_applies".into()).or_insert(0) += 1;
+                        progress.fetch_add(1, Ordering::SeqCst);
+                    }
                     Ok(Err(e)) => return Err(format!("buffered apply: {e}")),
-                    Err(_) => {}
+                    // not progress: judged by the stall detector below
+                    Err(_) => *stats.entry("agent.buffered_apply_gave_up_after_120s".into()).or_insert(0) += 1,
                 }
-                progress.fetch_add(1, Ordering::SeqCst);
             }
         }
         let n = node.forward_clears().await;
@@ -385,8 +417,9 @@ pub async fn one_execution(seed: u64, stats: &mut BTreeMap<String, u64>) -> Resu
         let p = progress.load(Ordering::SeqCst);
         if p != last_progress.0 {
             last_progress = (p, Instant::now());
-        } else if last_progress.1.elapsed() > Duration::from_secs(30) {
-            // no task made progress for 30 s although this supervising task (the heartbeat) runs
+        } else if last_progress.1.elapsed() > Duration::from_secs(90) {
+            // no writer task completed a single operation for 90 s (operations take
+            // milliseconds) although this supervising task (the heartbeat) runs
             let reg = node.bookie.registry().map.read();
             let blocked: Vec<String> = reg
                 .values()
